@@ -10,7 +10,7 @@ use serde_json::{json, Value};
 use std::io::Write;
 
 fn registry() -> Vec<&'static dyn Check> {
-    vec![&checks_l::C02, &checks_l::C03, &checks_l::C05, &rig_c::C20]
+    vec![&checks_l::C02, &checks_l::C03, &checks_l::C05, &checks_l::C04, &rig_c::C20]
 }
 
 fn find(id: &str) -> &'static dyn Check {
